@@ -37,6 +37,7 @@ type lop struct { // logical op of a working session
 }
 
 type bsim struct {
+	collapses int
 	c    *kernel.Choices
 	r    *kernel.Result
 	prop string
@@ -109,7 +110,9 @@ func sortedKeys(m map[string][]byte) []string {
 
 func (s *bsim) genKeys() {
 	c := s.c
-	n := []int{6, 40, 120, 400, 1300, 4200}[c.Weighted([]int{1, 2, 4, 4, 2, 2})]
+	// the 20000-key profile reaches tree height 3 (two inner levels above the leaves' parents): needed for shrink-by-
+	// more-than-one-level campaigns (opCollapse)
+	n := []int{6, 40, 120, 400, 1300, 4200, 20000}[c.Weighted([]int{1, 2, 4, 4, 2, 2, 1})]
 	shape := c.Intn(3)
 	s.keys = make([]string, n)
 	for i := range s.keys {
@@ -1066,6 +1069,95 @@ func (s *bsim) opBulk() {
 	}
 }
 
+// opCollapse: fill the whole key space (a tall tree), save, remove everything but the highest keys in one session
+// (the tree loses two or more levels while its right-most leaves stay untouched and shared with the previous
+// version), save, prune the tall version, and read the retained one.
+func (s *bsim) opCollapse() {
+	if s.poisoned || len(s.keys) < 15000 || s.collapses >= 2 || s.loaded != s.latest {
+		return
+	}
+	s.collapses++
+	n := len(s.keys)
+	s.c.Event("collapse campaign over %d keys", n)
+	apply := func(from, to int, remove bool) bool {
+		for i := from; i < to && !s.stop; i++ {
+			k := s.keys[i]
+			if remove {
+				old, had := s.working[k]
+				val, removed, err := s.t.Remove([]byte(k))
+				if err != nil || removed != had || (had && !bytes.Equal(val, old)) {
+					s.fail("remove-result", "collapse Remove(%q) = (%q,%v,%v), model (%q,%v)", k, val, removed, err, old, had)
+					return false
+				}
+				if had {
+					delete(s.working, k)
+					o := lop{del: true, k: k}
+					s.session = append(s.session, o)
+					s.applyRef(o)
+				}
+				continue
+			}
+			if _, had := s.working[k]; had {
+				continue
+			}
+			s.valCtr++
+			v := []byte(fmt.Sprintf("c%d", s.valCtr))
+			if upd, err := s.t.Set([]byte(k), v); err != nil || upd {
+				s.fail("set-updated-flag", "collapse Set(%q) updated=%v err=%v, model had=false", k, upd, err)
+				return false
+			}
+			s.working[k] = v
+			o := lop{k: k, v: v}
+			s.session = append(s.session, o)
+			s.applyRef(o)
+		}
+		return !s.stop
+	}
+	if !apply(0, n, false) {
+		return
+	}
+	before := s.latest
+	s.opSave()
+	if s.stop || s.poisoned || s.latest != before+1 {
+		return
+	}
+	if h := int(s.t.Height()); h > s.maxHeight {
+		s.maxHeight = h
+	}
+	keep := 20 + s.c.Intn(n/24)
+	if !apply(0, n-keep, true) {
+		return
+	}
+	tall := s.latest
+	s.opSave()
+	if s.stop || s.poisoned || s.latest != tall+1 {
+		return
+	}
+	s.r.Probe("collapse_campaigns")
+	s.checkReads("after collapse", s.t, s.working, 8)
+	if s.stop || !s.ensureLatestClean() {
+		return
+	}
+	if err := s.t.PruneVersionsTo(tall); err != nil {
+		s.fail("prune-error", "PruneVersionsTo(%d) after a collapse (latest %d): %v", tall, s.latest, err)
+		return
+	}
+	s.c.Event("Prune to %d after collapse", tall)
+	s.r.Probe("prunes")
+	for v := range s.avail {
+		if v <= tall {
+			delete(s.avail, v)
+		}
+	}
+	s.checkReads("after pruning the tall version", s.t, s.working, 24)
+	if !s.stop && s.c.Bool() {
+		s.opReopen()
+		if !s.stop {
+			s.checkReads("after collapse, prune and reopen", s.t, s.working, 24)
+		}
+	}
+}
+
 // Run is one simulated history.
 func runBptree(c *kernel.Choices, p kernel.Params) *kernel.Result {
 	s := &bsim{c: c, r: kernel.NewResult(), prop: p.Property}
@@ -1105,9 +1197,13 @@ func runBptree(c *kernel.Choices, p kernel.Params) *kernel.Result {
 		c.Intn(6),       // proof
 		c.Intn(3),       // fast audit
 		0,               // bulk insert/remove (deep profiles)
+		0,               // collapse campaign (20000-key profile)
 	}
 	if len(s.keys) >= 400 {
 		w[14] = 2 + c.Intn(6)
+	}
+	if len(s.keys) >= 15000 {
+		w[15] = 4
 	}
 	switch p.Property {
 	case "C25":
@@ -1160,6 +1256,8 @@ func runBptree(c *kernel.Choices, p kernel.Params) *kernel.Result {
 			s.fastAudit("mid-run")
 		case 14:
 			s.opBulk()
+		case 15:
+			s.opCollapse()
 		}
 		s.r.Steps++
 		if h := int(s.t.Height()); h > s.maxHeight {
